@@ -31,6 +31,7 @@ class Run:
         self.assumptions = []
         self.violations = []          # (key, text, replay_obj)
         self.known = []
+        self._keys = {}
         self.kf = [f for f in known_findings().get("findings", []) if f.get("property") == pid]
 
     # --- coverage -----------------------------------------------------------
@@ -62,6 +63,10 @@ class Run:
                 if f["key"] not in [k[0] for k in self.known]:
                     self.known.append((f["key"], f["what"]))
                 return False
+        if key in self._keys:
+            self._keys[key] += 1
+            return True
+        self._keys[key] = 1
         self.violations.append((key, text, replay))
         return True
 
